@@ -295,6 +295,10 @@ pub fn pre_advance(info: &Info) -> BoxedStrategy<usize> {
             2 => (b.saturating_sub(3))..=(b + 3),
             2 => (2 * b).saturating_sub(3)..=(2 * b + 3),
             1 => 0usize..=(2 * b + 90),
+            // around the wrap points of internal position counters (HC-128's 1024-step table
+            // cycle, ISAAC's 256-word blocks, 2^k words in general)
+            1 => (6u32..=14, 0usize..8).prop_map(|(k, d)| (1usize << k) - 4 + d),
+            1 => (1usize..=40, 0usize..3).prop_map(move |(blocks, d)| (blocks * 64 * b / 16).saturating_sub(1) + d),
         ]
         .boxed()
     } else {
